@@ -131,6 +131,56 @@ theorem bits_empty (mapping : List (String × Nat)) (hrange : ∀ p ∈ mapping,
   rw [bitsToRegions_spec 0 mapping [] (fun p hp => (hrange p hp).1)]
   simp
 
+/-! ## the caller: what `_create_jobs` stores for the jobs of one bunch -/
+
+/-- **Per-job independence**: in a bunch accepted by `_create_jobs` there is one row per job, and the
+`(n_regions, regions_bits_rep)` stored for a job is what that job alone would get — it depends on the job's own
+`regions` only, not on the jobs before it. -/
+theorem bunch_regions_independent (mapping : List (String × Nat)) (jobs : List (Option (List String)))
+    (rows : List (Option Nat × Option Nat)) (h : bunchRegions mapping jobs = some rows) :
+    rows.length = jobs.length ∧ ∀ p ∈ jobs.zip rows, jobRegions mapping p.1 = some p.2 :=
+  mapM_zip _ jobs rows h
+
+/-- What is stored for one job decodes to exactly the regions the job selected (in mapping order); a job without
+preference is stored as NULL and decodes to `None`; `n_regions` is the length of the submitted list. -/
+theorem job_regions_roundtrip (mapping : List (String × Nat)) (hkeys : (mapping.map Prod.fst).Nodup)
+    (hinj : (mapping.map Prod.snd).Nodup) (hrange : ∀ p ∈ mapping, 1 ≤ p.2 ∧ p.2 ≤ 63)
+    (job : Option (List String)) (n bits : Option Nat) (h : jobRegions mapping job = some (n, bits)) :
+    n = job.map List.length ∧
+    bitsToRegionsOpt bits mapping = some (job.map fun rs => (mapping.map Prod.fst).filter (fun r => decide (r ∈ rs))) := by
+  cases job with
+  | none =>
+    simp only [jobRegions, Option.some.injEq, Prod.mk.injEq] at h
+    obtain ⟨rfl, rfl⟩ := h
+    exact ⟨rfl, rfl⟩
+  | some rs =>
+    simp only [jobRegions] at h
+    split at h
+    · cases h
+    next hvalid =>
+      split at h
+      · cases h
+      · have hsel : ∀ r ∈ rs, r ∈ mapping.map Prod.fst := by
+          intro r hr
+          have : ¬ (mapping.lookup r).isNone = true := fun hc => hvalid (List.any_eq_true.2 ⟨r, hr, hc⟩)
+          cases hl : mapping.lookup r with
+          | none => simp [hl] at this
+          | some i => exact List.mem_map.2 ⟨(r, i), mem_of_lookup hl, rfl⟩
+        obtain ⟨b, hb, _, hdec⟩ := bits_roundtrip mapping hkeys hinj hrange rs hsel
+        rw [hb] at h
+        simp only [Option.map_some, Option.some.injEq, Prod.mk.injEq] at h
+        obtain ⟨rfl, rfl⟩ := h
+        exact ⟨rfl, by simp [bitsToRegionsOpt, hdec]⟩
+
+/-- Every row of an accepted bunch decodes to its own job's selection. -/
+theorem bunch_regions_roundtrip (mapping : List (String × Nat)) (hkeys : (mapping.map Prod.fst).Nodup)
+    (hinj : (mapping.map Prod.snd).Nodup) (hrange : ∀ p ∈ mapping, 1 ≤ p.2 ∧ p.2 ≤ 63)
+    (jobs : List (Option (List String))) (rows : List (Option Nat × Option Nat)) (h : bunchRegions mapping jobs = some rows) :
+    ∀ p ∈ jobs.zip rows, p.2.1 = p.1.map List.length ∧
+      bitsToRegionsOpt p.2.2 mapping = some (p.1.map fun rs => (mapping.map Prod.fst).filter (fun r => decide (r ∈ rs))) := by
+  intro p hp
+  exact job_regions_roundtrip mapping hkeys hinj hrange p.1 p.2.1 p.2.2 ((bunch_regions_independent mapping jobs rows h).2 p hp)
+
 /-! ## non-vacuity (evaluated by the kernel) -/
 
 /-- a CI-style job: one secret without `mount_in_copy`, no service account, input files, a machine type -/
@@ -152,6 +202,11 @@ example : (dbSpec 4 (ex1.toJ [])).bind (getMachineSpec 4) = some .null := by rfl
 example : (dbSpec 7 (ex2.toJ [])).bind (getHasInputFiles 7) = some false := by rfl    -- present but empty
 example : dbSpec 7 (.obj [("secrets", .null)]) = none := by rfl                       -- no `resources`: AttributeError
 example : OthersOk [("job_id", .int 1)] ∧ ResourcesOk ex2 := ⟨⟨rfl, rfl, rfl, rfl, rfl⟩, ⟨rfl, rfl, rfl⟩⟩
+-- a job with a preference followed by one without: the second row is (NULL, NULL)
+example : bunchRegions [("a", 1), ("b", 2)] [some ["b"], none, some ["a", "b"], none] =
+    some [(some 1, some 2), (none, none), (some 2, some 3), (none, none)] := by decide
+example : bunchRegions [("a", 1), ("b", 2)] [some ["b"], some []] = none := by decide          -- empty list: 400
+example : bunchRegions [("a", 1), ("b", 2)] [none, some ["zz"]] = none := by decide           -- unknown region: 400
 example : regionsToBits ["b", "a", "b"] [("a", 1), ("b", 2), ("c", 63)] = some 3 := by decide
 example : bitsToRegions 3 [("a", 1), ("b", 2), ("c", 63)] = some ["a", "b"] := by decide
 example : regionsToBits ["c"] [("a", 1), ("b", 2), ("c", 63)] = some (2 ^ 62) := by decide
